@@ -31,7 +31,8 @@ NEIGHBOURS = [{"from": "C08", "limit": 400, "why": "captures receive the call's 
 
 HOSTILE = ["error", "contract", "func", "condition", "instance", "args", "kwargs", "resolved_kwargs", "description", "a_repr",
            "enabled", "name", "capture", "violation_error", "mapping", "location", "param_names", "kwdefaults", "snapshot",
-           "wrapper", "checker", "value", "key", "cls_", "in_progress", "exception", "msg", "e", "err", "error_kwargs", "condition_kwargs"]
+           "wrapper", "checker", "value", "key", "cls_", "in_progress", "exception", "msg", "e", "err", "error_kwargs", "condition_kwargs",
+           "old_as_mapping", "snap", "result_", "check", "group", "preconditions", "postconditions", "snapshots", "a", "k", "v"]
 HOSTILE_PAIRS = [(HOSTILE[i], HOSTILE[(i + 7) % len(HOSTILE)]) for i in range(len(HOSTILE))]
 
 
@@ -112,7 +113,8 @@ def make_case(sig, args, kwargs, rng, kind="function", async_=False, hostile=Non
         s1args = rng.sample(nonvar, min(len(nonvar), rng.randint(1, 2)))
         # (often named like the parameter it captures - the default naming of `snapshot(lambda lst: ...)`; captures made
         # later must still receive the ARGUMENT of that name, not the captured value)
-        s1name = s1args[0] if (hostile is None and s1args[0] != "self" and rng.random() < 0.5) else "s1"
+        # (`self` and names like `mapping` included: the snapshot of `lambda self: ...` is called `self`)
+        s1name = s1args[0] if rng.random() < 0.5 else "s1"
         lv["snaps"].append(genck.snapshot(1, s1name, s1args))
     if len(nonvar) >= 2:
         # (even id: the capture's parameters after the first have defaults of their own - the call's values must win)
@@ -139,6 +141,8 @@ run_directed = directed.run
 
 def cases(tier, rng):
     thorough = tier == "thorough"
+    for c in directed.contracts_on_partial_cases():
+        yield "directed-contracts-on-partial", c
     for c in directed.shared_decorator_cases():
         yield "directed-shared-contract", c
     # parameters named like the library's own helper parameters / local variables
